@@ -1,7 +1,7 @@
 import ThriftVerif.Props.C17
 #print axioms Props.C17.generated_cfg_is_std
 #print axioms Props.C17.amp_escape_inverse
-#print axioms Props.C17.amp_escape_inverse_twice_not
+#print axioms Props.C17.type_annotation_escaped_once
 #print axioms Props.C17.dump_literal_text
 #print axioms Props.C17.literal_roundtrip
 #print axioms Props.C17.literal_roundtrip_iff_safe_witnesses
